@@ -114,7 +114,7 @@ func init() {
 			{Name: "stat-without-token", File: "internal/backend/sema/backend.go",
 				Old: "	defer be.typeDependentLimit(h.Type)()\n\n	if ctx.Err() != nil {\n		return backend.FileInfo{}, ctx.Err()\n	}", New: "	if ctx.Err() != nil {\n		return backend.FileInfo{}, ctx.Err()\n	}", Rule: "token-paired"},
 			{Name: "lock-files-wait-for-freeze", File: "internal/backend/sema/backend.go",
-				Old: "	if t == backend.LockFile {\n		return func() {}\n	}\n	be.sem.GetToken()\n	be.freezeLock.Lock()\n	defer be.freezeLock.Unlock()", New: "	be.freezeLock.Lock()\n	defer be.freezeLock.Unlock()\n	if t == backend.LockFile {\n		return func() {}\n	}\n	be.sem.GetToken()", Rule: "lock-bypass"},
+				Old: "	if t == backend.LockFile {\n		return func() {}\n	}\n	be.sem.GetToken()\n	// prevent token usage while the backend is frozen\n	be.freezeLock.Lock()\n	defer be.freezeLock.Unlock()", New: "	be.freezeLock.Lock()\n	defer be.freezeLock.Unlock()\n	if t == backend.LockFile {\n		return func() {}\n	}\n	be.sem.GetToken()", Rule: "lock-bypass"},
 			{Name: "token-released-immediately", File: "internal/backend/sema/backend.go",
 				Old: "	defer be.typeDependentLimit(h.Type)()\n\n	if ctx.Err() != nil {\n		return ctx.Err()\n	}\n\n	return be.Backend.Remove(ctx, h)", New: "	be.typeDependentLimit(h.Type)()\n\n	if ctx.Err() != nil {\n		return ctx.Err()\n	}\n\n	return be.Backend.Remove(ctx, h)", Rule: "token-paired"},
 		},
